@@ -243,6 +243,15 @@ CHECKS += [
      "note": "Only row shapes reachable by real runs."},
 ]
 
+CHECKS += [
+    {"id": "C36", "engine": "enum", "level": "exploration",
+     "technique": "exhaustive enumeration of (start schema version x generated population), upgrade to head, row-preservation oracle",
+     "text": "Each of the 11 historical schema versions x 5 populations generated from the reflected schema is upgraded to head by load(); every "
+     "(table, primary key) must survive with equal values in the shared columns (timestamps as instants, NULL backfills allowed) and a workflow "
+     "run twice on the upgraded file must succeed with the second run cached.",
+     "note": "SQLite only, TZ=UTC; populations are FK-consistent synthetic rows, not real historical data."},
+]
+
 _ALL = [f"C{i:02d}" for i in range(1, 39)]
 _claimed = {c["id"] for c in CHECKS}
 _REASONS = {}
